@@ -17,7 +17,7 @@
  * Observation (one line per operation):  r=<ret> T=<tree> E=<expose events> G=<grid or ->
  *   tree:   id,parent,top,left,lines,cols,visible,children(dot separated or -) joined by |   (closed window: id,x)
  *   events: id:top,left,lines,cols joined by ;  (- if none)
- *   grid:   rows joined by |, four characters per cell: glyph, fg+1, bg+1, bold
+ *   grid:   rows joined by |, five characters per cell: glyph (two), fg+1, bg+1, bold
  */
 #define HCOMMON_MAIN
 #include "hcommon.h"
@@ -43,11 +43,13 @@ static size_t evlen;
 
 static int pmod(int x, int m) { int r = x % m; return r < 0 ? r + m : r; }
 
+/* a glyph; + 1000 when it carries a combining acute accent (U+0301) */
 static int base_glyph(int w, int l, int c)
 {
   int v = pmod(l * 7 + c * 3 + w * 11, 19);
   if(v < 5) return 32;
-  return 33 + pmod(l * 13 + c * 5 + w * 17, 90);
+  int g = 33 + pmod(l * 13 + c * 5 + w * 17, 90);
+  return pmod(l * 5 + c * 11 + w * 3, 7) == 0 ? g + 1000 : g;
 }
 
 static int content(int w, int l, int c)
@@ -108,9 +110,10 @@ static void paint(int id, const TickitRect *rect, TickitRenderBuffer *rb)
     int n = 0, start = 0;
     for(int col = rect->left; col <= rect->left + rect->cols; col++) {
       int g = col < rect->left + rect->cols ? content(id, line, col) : 32;
-      if(g != 32 && n < (int)sizeof buf - 1) {
+      if(g != 32 && n < (int)sizeof buf - 4) {
         if(n == 0) start = col;
-        buf[n++] = (char)g;
+        buf[n++] = (char)(g % 1000);
+        if(g >= 1000) { buf[n++] = (char)0xcc; buf[n++] = (char)0x81; }
       }
       else if(n) {
         tickit_renderbuffer_textn_at(rb, line, start, buf, n);
@@ -210,26 +213,29 @@ static void dump_tree(void)
   }
 }
 
-static char glyph_char(int g)
+/* two characters per glyph: ".x" ASCII (space = "~"), "}}" second half of a double-width character,
+ * "Wx" the fullwidth form of ASCII x (U+FF01..U+FF5E), "{{" anything else */
+static void glyph_chars(int g, char *out)
 {
-  if(g == 32) return '~';
-  if(g == 0) return '}';
-  if(g >= 33 && g <= 122) return (char)g;
-  return '{';
+  if(g == 32) { out[0] = '.'; out[1] = '~'; }
+  else if(g == 0) { out[0] = '}'; out[1] = '}'; }
+  else if(g >= 33 && g <= 122) { out[0] = '.'; out[1] = (char)g; }
+  else if(g >= 0xff01 && g <= 0xff5e) { out[0] = 'W'; out[1] = (char)(g - 0xfee0); }
+  else { out[0] = '{'; out[1] = '{'; }
 }
 
 static void dump_grid(void)
 {
   obs(" G=");
-  size_t n = (size_t)gd->cols * 4;
+  size_t n = (size_t)gd->cols * 5;
   char *row = malloc(n + 2);
   for(int l = 0; l < gd->lines; l++) {
     for(int c = 0; c < gd->cols; c++) {
       GDCell *cell = gd_cell(gd, l, c);
-      row[4 * c]     = glyph_char(cell->glyph);
-      row[4 * c + 1] = (cell->fg >= -1 && cell->fg <= 40) ? '0' + cell->fg + 1 : '!';
-      row[4 * c + 2] = (cell->bg >= -1 && cell->bg <= 40) ? '0' + cell->bg + 1 : '!';
-      row[4 * c + 3] = cell->attrs == 0 ? '0' : cell->attrs == 1 ? '1' : '!';
+      glyph_chars(cell->glyph, row + 5 * c);
+      row[5 * c + 2] = (cell->fg >= -1 && cell->fg <= 40) ? '0' + cell->fg + 1 : '!';
+      row[5 * c + 3] = (cell->bg >= -1 && cell->bg <= 40) ? '0' + cell->bg + 1 : '!';
+      row[5 * c + 4] = cell->attrs == 0 ? '0' : cell->attrs == 1 ? '1' : '!';
     }
     row[n] = 0;
     obs("%s%s", l ? "|" : "", row);
